@@ -30,9 +30,10 @@ type StdHandler struct {
 func (e *StdHandler) ServeHTTP(w http.ResponseWriter, _ *http.Request, err error) {
 	statusCode := http.StatusInternalServerError
 
-	//nolint:errorlint // must be changed
-	if e, ok := err.(net.Error); ok {
-		if e.Timeout() {
+	// the transport may wrap the network error (e.g. a reset while the request is being written)
+	var netErr net.Error
+	if errors.As(err, &netErr) {
+		if netErr.Timeout() {
 			statusCode = http.StatusGatewayTimeout
 		} else {
 			statusCode = http.StatusBadGateway
